@@ -22,8 +22,12 @@ lemma blk_shift(line string, rem string, orig string, c int, k int)
 func trim
   ensures (len(result) == 0) == (forall k int :: 0 <= k && k < len(line) ==> isblk(line[k]))
 
+// split at the FIRST delimiter; everything after it is kept as written (an option value may contain '=', a maintainer
+// name "--"); without a delimiter the whole line is the first part
 func partition
   requires len(delim) >= 1
+  ensures indexStr(line, delim) < 0 ==> result0 == line && result1 == ""
+  ensures indexStr(line, delim) >= 0 ==> result0 == line[:indexStr(line, delim)] && result1 == line[indexStr(line, delim)+len(delim):]
 
 // the next line of the input, also when the last line has no final newline; io.EOF only when nothing is left
 func readLine
